@@ -35,6 +35,7 @@ type Transport struct {
 	Reader    *ScriptReader
 	ReadGate  chan struct{} // if non-nil, Read blocks until the gate is closed, then reports EOF
 	Yield     func(point string)
+	OnEvent   func(kind string) // called (outside the lock) after each accepted write / close
 }
 
 func (t *Transport) yield(p string) {
@@ -64,6 +65,9 @@ func (t *Transport) Write(p []byte) (int, error) {
 		return 0, ErrTransport
 	}
 	t.Log = append(t.Log, TEvent{Kind: "write", Bufs: [][]byte{append([]byte(nil), p...)}, Bytes: len(p)})
+	if t.OnEvent != nil {
+		t.OnEvent("write")
+	}
 	return len(p), nil
 }
 
@@ -82,6 +86,9 @@ func (t *Transport) Writev(bs net.Buffers) (int64, error) {
 		ev.Bytes += len(b)
 	}
 	t.Log = append(t.Log, ev)
+	if t.OnEvent != nil {
+		t.OnEvent("write")
+	}
 	return int64(ev.Bytes), nil
 }
 
@@ -104,6 +111,9 @@ func (t *Transport) Close() error {
 	defer t.mu.Unlock()
 	t.Closed++
 	t.Log = append(t.Log, TEvent{Kind: "close"})
+	if t.OnEvent != nil {
+		t.OnEvent("close")
+	}
 	if t.ReadGate != nil && t.Closed == 1 {
 		close(t.ReadGate)
 	}
